@@ -166,6 +166,7 @@ def one(res, ctx, root, rng, t, forced_style, idx, sample=False):
     rel = os.path.relpath(f, root)
     if before is not None and rel in before:
         prev_c, prev_l = before[rel]["cop"], before[rel]["lic"]
+    bytes_before = annot.carrier_bytes(f)
     r = run_cli(full, cwd=cwd)
     res.n += 1
     desc = {"type": (t or {}).get("key"), "style": short, "mode": mode, "template": template, "dot": dot, "prefix": prefix, "hostile": hostile,
@@ -173,7 +174,7 @@ def one(res, ctx, root, rng, t, forced_style, idx, sample=False):
     if r.escaped:
         res.violation("escaped-exception", f"{r.exc_type} ({desc})", tb=r.exc_tb, args=args)
         return
-    success = r.exit_code == 0 and "Successfully changed header" in r.stdout
+    success = annot.succeeded(r, bytes_before, f)
     # --- classes that must succeed
     must = (not hostile) and template in FAITHFUL and r.exit_code != 2
     if template == "nocontrib" and contribs and not (holders or lics):
